@@ -247,13 +247,15 @@ func mkBranch[S any](to string) *compose.GraphBranch {
 	}, map[string]bool{to: true})
 }
 
-// mkRelay builds a lambda `any -> string` that only passes control on: it reads its
-// input (the entire output of a predecessor, or nothing) to the end and returns "r".
-func mkRelay() *compose.Lambda {
-	l, err := compose.AnyLambda[any, string, any](
-		func(ctx context.Context, in any, _ ...any) (string, error) { return "r", nil },
+// mkRelay builds a lambda `In -> string` that only passes control on: it reads its
+// input to the end and returns "r". In = any when the relay takes the entire output
+// of a predecessor, In = string when it only depends on it (a node without data
+// input is handed the zero value of its input type).
+func mkRelay[In any]() *compose.Lambda {
+	l, err := compose.AnyLambda[In, string, any](
+		func(ctx context.Context, in In, _ ...any) (string, error) { return "r", nil },
 		nil, nil,
-		func(ctx context.Context, in *schema.StreamReader[any], _ ...any) (*schema.StreamReader[string], error) {
+		func(ctx context.Context, in *schema.StreamReader[In], _ ...any) (*schema.StreamReader[string], error) {
 			for {
 				_, err := in.Recv()
 				if err != nil {
